@@ -16,7 +16,7 @@ RULE = ('seeded histories (2-25 ops) over 1-2 root datasets (flat or temporal; 1
         'arguments; distinct = distinct (op, producer of operand, argument/shape class) signatures.')
 ASSUMPTIONS = ['twin semantics as tabulated in DESIGN.md Appendix B', 'DataFrame round trip keeps only the channel descriptor '
                'used for the column names (documented): loss of other channel descriptors there is not judged']
-BUDGET = {'quick': {'runs': 2500, 'cap_s': 30, 'wall_s': 100, 'chunk': 40},
+BUDGET = {'quick': {'runs': 8000, 'cap_s': 30, 'wall_s': 100, 'chunk': 40},
           'thorough': {'runs': 150000, 'cap_s': 60, 'wall_s': 1500, 'chunk': 250}}
 
 WEIGHTS = [('split_obs', 3), ('split_channel', 2), ('split_time', 2), ('subset_obs', 3), ('subset_channel', 2), ('subset_time', 2),
